@@ -37,6 +37,10 @@ func init() {
 			for which := 0; which <= 2; which++ {
 				cs = append(cs, driver.Case{Harness: "verifH_c09_scalarmult", Pkg: "internal/sm9/bn256", Config: "purego", Params: P("which", which), Overrides: dl, MaxUnwind: 4000, TimeoutS: 1500, Portfolio: true})
 			}
+			pov := map[string]string{m + ".miller": "verifModel_miller", m + ".finalExponentiation": "verifModel_finalExponentiation"}
+			for which := 0; which <= 3; which++ {
+				cs = append(cs, driver.Case{Harness: "verifH_c09_pair_identity", Pkg: "internal/sm9/bn256", Config: "purego", Params: P("which", which), Overrides: pov, MaxUnwind: 4000, TimeoutS: 600, Portfolio: true})
+			}
 			return cs
 		},
 		Functions:   []string{"internal/sm9/bn256.(*G1).ScalarMult, (*G1).ScalarBaseMult, generatorTable, (*curvePointTable).Select, curvePointMovCond (drivers; point formulas replaced)", "internal/sm9/bn256.(*gfP).Unmarshal, lessThanP, gfpUnmarshal (purego)", "(*G1).Unmarshal, (*G2).Unmarshal, (*GT).Unmarshal"},
